@@ -253,10 +253,10 @@ CYCLE = {
                         done = done.insert(link);
                     }
 """},
-   {"at": r"cycle_owned_refs\.entry\(link\.as_forward\(\)\)\.or_default\(\);", "pos": "before", "text": r"""                    proof { assert(link == bl(link.ptr)); }
+   {"at": r"cycle_owned_refs\.entry\(.*\)\.or_default\(\);", "pos": "before", "text": r"""                    proof { assert(link == bl(link.ptr)); }
                     let ghost mprev = cycle_owned_refs@;
 """},
-   {"at": r"cycle_owned_refs\.entry\(link\.as_forward\(\)\)\.or_default\(\);", "pos": "after", "text": r"""                    proof {
+   {"at": r"cycle_owned_refs\.entry\(.*\)\.or_default\(\);", "pos": "after", "text": r"""                    proof {
                         assert(cycle_owned_refs@ =~= (if mprev.contains_key(fl(link.ptr)) { mprev } else { mprev.insert(fl(link.ptr), 0usize) }));
                         assert forall|t: Ptr| #![trigger cnt(cycle_owned_refs@, fl(t))] cnt(cycle_owned_refs@, fl(t)) == cnt(mprev, fl(t)) by {}
                         done = done.insert(link);
